@@ -25,16 +25,16 @@ Definition read_via_link (p q : path) (s0 : fs) (pre : list mstep) : option file
 (* ---------- one operation of the store, down to the file system ---------- *)
 From Oras Require Import Generated.GC18 Model.CredFile.
 
-(* what a reader finds at the config path *)
-Inductive disk := DAbsent | DBad | DDoc (d : fdoc).
-
-Definition view_of (f : option fdoc) : disk :=
-  match f with Some d => DDoc d | None => DAbsent end.
-
+(* What a reader finds at the config path, up to the representation: [fdoc] is
+   not canonical (order of the key list, the tags the harness attaches), and a
+   JSON writer such as MarshalIndent sorts keys, so a reader gets back a
+   document that is EQUIVALENT to the one written ([eqv], any equivalence the
+   writer/reader pair respects), not the same list. *)
 Section OpSave.
   Variables (enc : str -> str) (dec : str -> option str).
   Variable render : fdoc -> str.          (* json.MarshalIndent of the document *)
   Variable parse : str -> option fdoc.    (* a JSON reader *)
+  Variable eqv : fdoc -> fdoc -> Prop.    (* same document *)
   Variable chunking : str -> list str.    (* how the content is split over write calls *)
 
   (* micro-steps of the operation: a save when the operation writes, nothing otherwise *)
@@ -46,9 +46,10 @@ Section OpSave.
       end
     else [].
 
-  Definition disk_view (p : path) (s : fs) : disk :=
-    match fget p s with
-    | None => DAbsent
-    | Some f => match parse (f_data f) with Some d => DDoc d | None => DBad end
+  (* the config path holds (a rendering equivalent to) document [f]; None = no file *)
+  Definition disk_is (p : path) (s : fs) (f : option fdoc) : Prop :=
+    match f with
+    | None => fget p s = None
+    | Some d => exists file d', fget p s = Some file /\ parse (f_data file) = Some d' /\ eqv d' d
     end.
 End OpSave.
